@@ -25,6 +25,9 @@ type ctl struct {
 	// injected partition borders (nil = ask the engine)
 	splits [][]byte
 
+	// the next Get fails once with a transient engine error
+	getFault bool
+
 	// iterator fault (scanner retry path): the NEXT iterator created fails its iterFault-th Next call once
 	iterFault       int
 	iterFaultsFired int
@@ -97,6 +100,34 @@ func (c *ctl) gate(ctx context.Context, name string) string {
 type kvWrap struct {
 	inner storage.KvStorage
 	c     *ctl
+	// delete failures are injected by a delFaultStore further down (below the storage-metrics wrapper)
+	delBelow bool
+}
+
+// delFaultStore injects the delete-call failure mask directly above the bare engine.
+type delFaultStore struct {
+	storage.KvStorage
+	c *ctl
+}
+
+func (d *delFaultStore) Del(ctx context.Context, key []byte) error {
+	switch delOutcome(d.c, "del:"+hx(key)) {
+	case "f":
+		return errInjected
+	case "c":
+		return storage.ErrCASFailed
+	}
+	return d.KvStorage.Del(ctx, key)
+}
+
+func (d *delFaultStore) DelCurrent(ctx context.Context, it storage.Iter) error {
+	switch delOutcome(d.c, "delcur:"+hx(it.Key())) {
+	case "f":
+		return errInjected
+	case "c":
+		return storage.ErrCASFailed
+	}
+	return d.KvStorage.DelCurrent(ctx, it)
 }
 
 func (w *kvWrap) GetTimestampOracle(ctx context.Context) (uint64, error) {
@@ -148,6 +179,13 @@ func (w *kvWrap) GetPartitions(ctx context.Context, start, end []byte) ([]storag
 
 func (w *kvWrap) Get(ctx context.Context, key []byte) ([]byte, error) {
 	w.c.gate(ctx, "get")
+	w.c.mu.Lock()
+	gf := w.c.getFault
+	w.c.getFault = false
+	w.c.mu.Unlock()
+	if gf {
+		return nil, errInjected
+	}
 	return w.inner.Get(ctx, key)
 }
 
@@ -195,18 +233,25 @@ func (w *kvWrap) Close() error     { return w.inner.Close() }
 
 // delOutcome decides the fate of the next Del/DelCurrent call.
 func (w *kvWrap) delOutcome(what string) string {
-	w.c.mu.Lock()
-	defer w.c.mu.Unlock()
-	i := w.c.delCalls
-	w.c.delCalls++
+	if w.delBelow {
+		return "-"
+	}
+	return delOutcome(w.c, what)
+}
+
+func delOutcome(c *ctl, what string) string {
+	c.mu.Lock()
+	defer c.mu.Unlock()
+	i := c.delCalls
+	c.delCalls++
 	out := "-"
-	if m, ok := w.c.delMask[i]; ok {
+	if m, ok := c.delMask[i]; ok {
 		out = m
 	}
-	if w.c.crashAt >= 0 && i >= w.c.crashAt {
+	if c.crashAt >= 0 && i >= c.crashAt {
 		out = "f"
 	}
-	w.c.delLog = append(w.c.delLog, what)
+	c.delLog = append(c.delLog, what)
 	return out
 }
 
